@@ -533,6 +533,9 @@ def grid(model):
             # strings that spell something else: quotes must keep them strings
             EnumVal("Equals", ["true"]), EnumVal("Equals", ["null"]), EnumVal("Equals", ["any"]), EnumVal("Equals", ["3"]), EnumVal("Equals", ["2.5"]), EnumVal("Equals", ["T10"]), EnumVal("Equals", [""]),
             EnumVal("Not", [EnumVal("Equals", ["false"])]),
+            # the negation of a comparison: not the complementary comparison (a string is neither > 3 nor <= 3)
+            EnumVal("Not", [EnumVal("GreaterThan", [SInt(3)])]), EnumVal("Not", [EnumVal("LessThanOrEqual", [SInt(3)])]), EnumVal("Not", [EnumVal("GreaterThanOrEqualFloat", [2.5])]), EnumVal("Not", [EnumVal("LessThanFloat", [2.5])]),
+            EnumVal("Not", [EnumVal("AfterDatetime", [dt])]),
             # floats with an integral value, strings with the list separator
             EnumVal("Equals", ["O'Brien"]), EnumVal("EqualsFloat", [1.0]), EnumVal("GreaterThanFloat", [3.0]), EnumVal("EqualsFloat", [0.000001]), EnumVal("LessThanFloat", [1.5e20]), EnumVal("GreaterThanOrEqualFloat", [-2.5e-7]), EnumVal("LessThanOrEqualFloat", [-2.0]), EnumVal("Equals", ["a|b"])]
     tsos = []
